@@ -8,7 +8,10 @@
 (* an MDC map.  The contract: the output is one JSON object followed by       *)
 (* exactly one newline, contains no raw byte below 0x20 before it, has        *)
 (* exactly the members Members(rec), and each member's value is the record's  *)
-(* (Value).  Nothing dynamic is model-checked here: TLC enumerates the record *)
+(* (Value).  The sink is an io::Write: a write call may accept any non-empty  *)
+(* prefix of what it is offered, and the contract is about the bytes the sink *)
+(* accepted in total (the replay uses sinks that take everything, one byte,   *)
+(* three bytes, or 7 / 1 / 64 bytes per call).  Nothing dynamic is model-checked here: TLC enumerates the record *)
 (* space and supplies the expected abstract line for the conformance step.    *)
 (***************************************************************************)
 EXTENDS Integers, Sequences, FiniteSets, TLC
